@@ -641,7 +641,7 @@ func TestCheck(t *testing.T) {
 			r.Sample(map[string]any{"workload": "handshake", "case": c})
 		}
 	})
-	r.Floor("handshakes_ech_accepted", int64(nHS)*7/10)
+	r.Floor("handshakes_ech_accepted", int64(nHS)*6/10)
 
 	// -- parser robustness: truncations, mutations, trailing bytes, random --
 	nRob := r.N(60, 6000)
